@@ -16,9 +16,14 @@ META = {
               'pattern forks) and symbolic supported flags, followed by a '
               'run-time extension and re-initialisation; thorough: the real '
               '369 records + 1 symbolic appended record',
-    'outside': 'record lists longer than 5 symbolic entries; duplicate '
-               'version id strings',
+    'outside': 'record lists longer than 5 symbolic entries; for records '
+               'that repeat a version id (3 records, ids from 2 names) '
+               'only the id-independent tables (known numbers, index map, '
+               'comparisons) are claimed',
     'assumptions': [
+        'set/frozenset inside minecraft/__init__.py are shadowed by an '
+        'equality-based list set (no hashing of symbolic numbers); one '
+        'instance shifts which records carry release-style ids',
         'the module-level PROTOCOL_VERSION_INDICES dict is replaced in place '
         'by an association list with the same interface for harness (b), so '
         'that symbolic keys need no hashing',
@@ -28,6 +33,11 @@ META = {
 
 def shadows(sh, params):
     shadow_versions(sh)
+    # hashing containers built inside minecraft/__init__.py: membership by
+    # == instead of by hash, so that symbolic protocol numbers stay symbolic
+    import minecraft
+    from .simnet import ListSet
+    sh.install(minecraft, set=ListSet, frozenset=ListSet)
 
 
 _POS = {}
@@ -358,7 +368,7 @@ def _same(t1, t2):
 
 
 def initglobals(ctx, n_init=3, n_ext=1, real_base=False, sentinel=False,
-                front=False):
+                front=False, name_offset=0):
     """initglobals(use_known_records=True) on symbolic records, twice
     (idempotence), then extend the records at run time and re-initialise;
     finally the legacy mode (SUPPORTED_MINECRAFT_VERSIONS as the source)."""
@@ -372,8 +382,9 @@ def initglobals(ctx, n_init=3, n_ext=1, real_base=False, sentinel=False,
     n_total = n_init + n_ext
     recs = []
     for i in range(n_total):
-        vid = 'x%d-%s' % (i, NAMES[i % len(NAMES)]) if real_base \
-            else NAMES[i % len(NAMES)]
+        # (name_offset shifts which records carry release-style ids)
+        nm_ = NAMES[(i + name_offset) % len(NAMES)]
+        vid = 'x%d-%s' % (i, nm_) if real_base else nm_
         p = ctx.int('p%d' % i, 0, (1 << 31) - 1)
         s = ctx.bool('s%d' % i)
         recs.append((vid, p, s))
@@ -526,6 +537,11 @@ def instances(tier, seed):
                  budget_s=600, witness_every=7),
         Instance('initglobals:3+1', 'initglobals', {'n_init': 3, 'n_ext': 1},
                  W=40, budget_s=900, witness_every=7),
+        Instance('initglobals:3+1:shifted', 'initglobals',
+                 {'n_init': 3, 'n_ext': 1, 'name_offset': 1},
+                 W=40, budget_s=900, witness_every=7,
+                 note='snapshot-style id first, then release/snapshot/'
+                      'release'),
         Instance('initglobals:1+2:front', 'initglobals',
                  {'n_init': 2, 'n_ext': 1, 'front': True},
                  W=40, budget_s=900, witness_every=7),
